@@ -28,14 +28,24 @@ Proof.
   - simpl. destruct (N.eqb u t'); auto.
 Qed.
 
+Lemma note_signed_same : forall s b, pl (note_signed s b) = pl s /\ pend (note_signed s b) = pend s /\ log (note_signed s b) = log s.
+Proof. intros s b. unfold note_signed. destruct (blocal b); simpl; auto. Qed.
+
+Lemma do_set_pool_stable : forall s t b' k b, get k (pl s) = Some b -> get k (pl (do_set s t b')) = Some b.
+Proof.
+  intros s t b' k b H. unfold do_set. destruct (blocal b'); [|exact H].
+  destruct (get (bkey b') (pl s)) eqn:G; simpl; [exact H|].
+  destruct (N.eqb k (bkey b')) eqn:E; [apply N.eqb_eq in E; subst k; congruence|exact H].
+Qed.
+
 (* first writer wins: a step never changes what the pool holds for a key that is set *)
 Lemma step_pool_stable : forall s a k b, get k (pl s) = Some b -> get k (pl (step s a)) = Some b.
 Proof.
-  intros s a k b H. destruct a as [t k'|t b'|t]; simpl; auto.
-  - unfold do_set. destruct (blocal b'); [|exact H].
-    destruct (get (bkey b') (pl s)) eqn:G; simpl; [exact H|].
-    destruct (N.eqb k (bkey b')) eqn:E; [apply N.eqb_eq in E; subst k; congruence|exact H].
+  intros s a k b H. destruct a as [t k'|t b'|t|t k' f|t]; simpl; auto.
+  - destruct (note_signed_same (do_set s t b') b') as (E & _). rewrite E. apply do_set_pool_stable. exact H.
   - unfold do_bcast. destruct (getp t (pend s)); exact H.
+  - unfold do_prepare. match goal with |- context [note_signed ?x ?y] => destruct (note_signed_same x y) as (E & _); rewrite E end. exact H.
+  - unfold do_set_prepared. destruct (getp t (prep s)); [apply do_set_pool_stable|]; exact H.
 Qed.
 
 Lemma run_pool_stable : forall l s k b, get k (pl s) = Some b -> get k (pl (run s l)) = Some b.
@@ -43,10 +53,12 @@ Proof.
   induction l as [|a l IH]; intros s k b H; simpl; auto. apply IH. apply step_pool_stable. exact H.
 Qed.
 
-Lemma step_inv : forall s a, inv s -> inv (step s a).
+Lemma inv_ext : forall s s', pl s' = pl s -> pend s' = pend s -> log s' = log s -> inv s -> inv s'.
+Proof. intros s s' A B C (K & P & L). unfold inv. rewrite A, B, C. auto. Qed.
+
+Lemma do_set_inv : forall s t b, inv s -> inv (do_set s t b).
 Proof.
-  intros s a (K & P & L). destruct a as [t k|t b|t]; simpl; [repeat split; auto| |].
-  - (* set *)
+  intros s t b (K & P & L).
     unfold do_set. destruct (blocal b) eqn:Lb.
     + destruct (get (bkey b) (pl s)) as [h|] eqn:G; simpl.
       * split; [exact K|]. split; [|exact L].
@@ -66,13 +78,28 @@ Proof.
       intros u x Hx Lx. simpl in Hx. destruct (N.eqb u t) eqn:E.
       * inv Hx. congruence.
       * apply N.eqb_neq in E. rewrite getp_delp_other in Hx by exact E. eapply P; eauto.
-  - (* broadcast *)
+Qed.
+
+Lemma do_bcast_inv : forall s t, inv s -> inv (do_bcast s t).
+Proof.
+  intros s t (K & P & L).
     unfold do_bcast. destruct (getp t (pend s)) as [h|] eqn:G; [|repeat split; auto]. simpl.
     split; [exact K|]. split.
     + intros u x Hx Lx. simpl in Hx. destruct (N.eq_dec u t) as [E|E].
       * subst u. rewrite getp_delp_same in Hx. discriminate.
       * rewrite getp_delp_other in Hx by exact E. eapply P; eauto.
     + intros x Hx Lx. simpl in Hx. apply in_app_or in Hx. destruct Hx as [Hx|[Hx|[]]]; [apply L; auto|subst x; eapply P; eauto].
+Qed.
+
+Lemma step_inv : forall s a, inv s -> inv (step s a).
+Proof.
+  intros s a H. destruct a as [t k|t b|t|t k f|t]; simpl.
+  - eapply inv_ext; [| | |exact H]; reflexivity.
+  - destruct (note_signed_same (do_set s t b) b) as (A & B & C). eapply inv_ext; eauto. apply do_set_inv. exact H.
+  - apply do_bcast_inv. exact H.
+  - unfold do_prepare. match goal with |- context [note_signed ?x ?y] => destruct (note_signed_same x y) as (A & B & C) end.
+    eapply inv_ext; eauto.
+  - unfold do_set_prepared. destruct (getp t (prep s)); [apply do_set_inv|]; exact H.
 Qed.
 
 Lemma inv_init : inv init.
@@ -88,11 +115,66 @@ Proof.
   pose proof (L _ H1 L1) as G1. pose proof (L _ H2 L2) as G2. rewrite E in G1. congruence.
 Qed.
 
-(* the log only grows *)
-Lemma step_log_prefix : forall s a, exists x, log (step s a) = log s ++ x.
+(* ------------------------------------------------------------------ signed ballots of the prepare paths *)
+
+(* a thread whose lookup found a pooled ballot prepares that very ballot: no second fact is signed *)
+Lemma prepare_reuses : forall s t k f h, getp t (seen s) = Some h ->
+  getp t (prep (do_prepare s t k f)) = Some h /\
+  (blocal h = true -> signed (do_prepare s t k f) = signed s ++ [h]).
 Proof.
-  intros s a. destruct a as [t k|t b|t]; simpl.
-  - exists []. rewrite app_nil_r. reflexivity.
-  - exists []. rewrite app_nil_r. unfold do_set. destruct (blocal b); [destruct (get (bkey b) (pl s))|]; reflexivity.
-  - unfold do_bcast. destruct (getp t (pend s)) as [h|]; [exists [h]|exists []; rewrite app_nil_r]; reflexivity.
+  intros s t k f h H. unfold do_prepare. rewrite H. unfold note_signed.
+  destruct (blocal h) eqn:L; simpl; rewrite N.eqb_refl; split; auto; discriminate.
+Qed.
+
+(* serial prepare paths: every pooled ballot is local and filed under its key, every produced ballot is pooled *)
+Definition sinv (s : st) : Prop :=
+  keyed (pl s) /\ (forall k b, get k (pl s) = Some b -> blocal b = true) /\
+  (forall b, In b (signed s) -> get (bkey b) (pl s) = Some b).
+
+Lemma txn_sinv : forall s t k f, sinv s -> sinv (run s (txn t k f)).
+Proof.
+  intros s t k f (K & A & S). unfold run, txn, fold_left, step.
+  unfold do_lookup. destruct (get k (pl s)) as [h|] eqn:G.
+  - (* reuse h *)
+    pose proof (A _ _ G) as Lh. pose proof (K _ _ G) as Kh.
+    unfold do_prepare. simpl. rewrite N.eqb_refl. unfold note_signed. rewrite Lh. simpl.
+    unfold do_set_prepared. simpl. rewrite N.eqb_refl. unfold do_set. rewrite Lh. simpl. rewrite Kh, G.
+    unfold do_bcast. simpl. rewrite N.eqb_refl. simpl.
+    split; [exact K|]. split; [exact A|]. intros b Hb. apply in_app_or in Hb.
+    destruct Hb as [Hb|[Hb|[]]]; [apply S; auto|subst b; rewrite Kh; exact G].
+  - (* sign a new one *)
+    unfold do_prepare. simpl. rewrite getp_delp_same. unfold note_signed. simpl.
+    unfold do_set_prepared. simpl. rewrite N.eqb_refl. unfold do_set. simpl. rewrite G.
+    unfold do_bcast. simpl. rewrite N.eqb_refl. simpl.
+    assert (forall k' x, get k' (pl s) = Some x -> get k' ((k, mkB k f true) :: pl s) = Some x) as W.
+    { intros k' x Hk. simpl. destruct (N.eqb k' k) eqn:E; [apply N.eqb_eq in E; subst k'; congruence|exact Hk]. }
+    split.
+    { intros k' x Hk. simpl in Hk. destruct (N.eqb k' k) eqn:E; [inv Hk; apply N.eqb_eq in E; auto|apply K; auto]. }
+    split.
+    { intros k' x Hk. simpl in Hk. destruct (N.eqb k' k) eqn:E; [inv Hk; reflexivity|eapply A; eauto]. }
+    intros b Hb. apply in_app_or in Hb.
+    destruct Hb as [Hb|[Hb|[]]]; [apply W; apply S; auto|subst b; simpl; rewrite N.eqb_refl; reflexivity].
+Qed.
+
+Fixpoint txns (l : list (N * N * N)) : list astep :=
+  match l with
+  | [] => []
+  | (t, k, f) :: r => txn t k f ++ txns r
+  end.
+
+Lemma txns_sinv : forall l s, sinv s -> sinv (run s (txns l)).
+Proof.
+  induction l as [|[[t k] f] l IH]; intros s H; [exact H|].
+  change (txns ((t, k, f) :: l)) with (txn t k f ++ txns l).
+  unfold run. rewrite fold_left_app. apply IH. apply txn_sinv. exact H.
+Qed.
+
+Lemma sinv_init : sinv init.
+Proof. repeat split; simpl; intros; try discriminate; try contradiction. Qed.
+
+Lemma serial_signed_single : forall l b1 b2, In b1 (signed (run init (txns l))) -> In b2 (signed (run init (txns l))) ->
+  bkey b1 = bkey b2 -> b1 = b2.
+Proof.
+  intros l b1 b2 H1 H2 E. destruct (txns_sinv l init sinv_init) as (_ & _ & S).
+  pose proof (S _ H1) as G1. pose proof (S _ H2) as G2. rewrite E in G1. congruence.
 Qed.
